@@ -201,7 +201,7 @@ func drive(args []string) {
 			raw := filepath.Join(*replays, fmt.Sprintf(".raw-%s-%d-%d.json", *prop, *seed, ji))
 			os.Remove(raw)
 			a := []string{"worker", "-prop", *prop, "-seed", fmt.Sprint(*seed), "-from", fmt.Sprint(j.from), "-stride", fmt.Sprint(total),
-				"-budget", bud.String(), "-build", j.build, "-replay-out", raw}
+				"-budget", bud.String(), "-build", j.build, "-replay-out", raw, "-tier", *tier}
 			if s := b.sites(j.build); s != "" {
 				a = append(a, "-sites", s)
 			}
@@ -340,7 +340,7 @@ func drive(args []string) {
 			// the run alone does not fail in a fresh process: state the
 			// pristine-state comparison cannot see may have been carried over from
 			// earlier runs of the same worker. Re-execute the worker's segment.
-			ss := &Session{Prop: *prop, Seed: *seed, From: o.SegFrom, Stride: uint64(total), Until: o.LastIdx, Build: build}
+			ss := &Session{Prop: *prop, Seed: *seed, From: o.SegFrom, Stride: uint64(total), Until: o.LastIdx, Build: build, Tier: *tier}
 			sv, serr := runSession(b.bin(build), b.sites(build), ss)
 			if serr == nil && sv != nil && sv.Sig == o.Violation.Sig {
 				rf := ReplayFile{Session: ss, Violation: sv, Note: fmt.Sprintf("the violating run (index %d) fails only after the runs that precede it in the same process (indices %d, %d, ... step %d); replay with: ./check replay %s", ss.Until, ss.From, ss.From+ss.Stride, ss.Stride, final)}
